@@ -112,9 +112,9 @@ func (s *c07Strategy) GetPublicKey() (ed25519.PublicKey, error) {
 	return s.key.Public().(ed25519.PublicKey), nil
 }
 
-// VH_C07_SignAndAdd: SignAndAddNewSignature from an integrity block that already holds 0..2 (thorough 0..3) signatures, with a
-// symbolic 64-byte web-bundle hash, 1..2 attributes (the public key plus an optional extra attribute with symbolic
-// value; Go map order nondeterministic) and a signing strategy that is honest / signs with ANOTHER key / returns 64
+// VH_C07_SignAndAdd: SignAndAddNewSignature from an integrity block that already holds 0..2 (thorough 0..5) signatures, with a
+// symbolic 64-byte web-bundle hash, 1..2 (thorough 1..4) attributes (the public key plus extra attributes with symbolic
+// values whose keys sort before/after it by length and by last byte; Go map order nondeterministic) and a signing strategy that is honest / signs with ANOTHER key / returns 64
 // arbitrary bytes / fails (Ed25519 idealised):
 //   returns nil iff the signature verifies under the public key being recorded over the specified
 //   data-to-be-signed (independent layout), and then the new [attrs, sig] entry is FIRST in the stack;
@@ -128,10 +128,10 @@ func VH_C07_SignAndAdd() {
 	hash := vh.Bytes("hash", 64)
 	ib := generateEmptyIntegrityBlock()
 	var stack []r7Sig
-	// 0..2 (thorough 0..3) signatures already in the block, added oldest first through the real code
-	nOld := vh.Choose(3 + vh.Tier())
+	// 0..2 (thorough 0..5) signatures already in the block, added oldest first through the real code
+	nOld := vh.Choose(3 + 3*vh.Tier())
 	for i := 0; i < nOld; i++ {
-		oldSig := vh.Bytes([]string{"old0", "old1", "old2"}[i], 64)
+		oldSig := vh.Bytes([]string{"old0", "old1", "old2", "old3", "old4", "old5"}[i], 64)
 		pk := []byte(keyB.Public().(ed25519.PublicKey))
 		pk = append([]byte{}, pk...)
 		pk[0] ^= byte(i) // distinct attribute values per entry so that a duplicated / lost entry is visible
@@ -140,10 +140,21 @@ func VH_C07_SignAndAdd() {
 	}
 	attrs := GenerateSignatureAttributesWithPublicKey(pubA)
 	rattrs := []r7Attr{{Ed25519publicKeyAttributeName, []byte(pubA)}}
-	if vh.Choose(2) == 1 {
+	nExtra := vh.Choose(2 + 2*vh.Tier())
+	if nExtra >= 1 {
 		extra := vh.Bytes("extra", 2)
 		attrs["a"] = extra // sorts before "ed25519PublicKey" (shorter encoded key)
 		rattrs = append(rattrs, r7Attr{"a", extra})
+	}
+	if nExtra >= 2 {
+		extra := vh.Bytes("extra2", 24) // 24: two-byte CBOR head
+		attrs["ed25519PublicKez"] = extra // same length as the key name, differs in the last byte only
+		rattrs = append(rattrs, r7Attr{"ed25519PublicKez", extra})
+	}
+	if nExtra >= 3 {
+		extra := vh.Bytes("extra3", 0)
+		attrs["Zzzzzzzzzzzzzzzzzzzzzzzzz"] = extra // 25 letters (two-byte key head): sorts last although 'Z' < 'e'
+		rattrs = append(rattrs, r7Attr{"Zzzzzzzzzzzzzzzzzzzzzzzzz", extra})
 	}
 	st := &c07Strategy{mode: vh.Choose(4), key: keyA}
 	switch st.mode {
